@@ -385,7 +385,10 @@ def run_case(case, ctx):
 def negctl(e, rng):
     """Insert an illegal edge into one recorded post-state (fan-in on an input) / make a rejected call add an edge."""
     c = copy.deepcopy(e)
+    listed = ("add", "connect", "disconnect", "remove", "set_output", "add_blackbox", "add_subcircuit", "fill_blackbox", "remove_unloaded")
     for k in rng.sample(range(len(c["steps"])), len(c["steps"])):
+        if c["steps"][k]["op"] not in listed:
+            continue          # steps outside the property's list (set_type, opaque test-suite steps) are not charged with wiring
         p = c["steps"][k]["post"]
         ins = [i for i, t in enumerate(p["ty"]) if t in ("input", "0", "1") and not p["fi"][i]]
         if ins and p["n"] >= 2:
